@@ -34,9 +34,15 @@ PINNED = [
 ]
 
 
+NNOREF = {"quick": 80, "thorough": 1200}
+
+
 def cases(tier, seed):
     out = [dict(i=k, seed=seed, **p) for k, p in enumerate(PINNED)]
     out += [dict(i=len(PINNED) + j, seed=seed) for j in range(N[tier])]
+    # cheap cases without the (expensive) certified reference: every clause except optimality - no exception, regulariser and prox
+    # called with their extra arguments, box respected, stored objectives include h - on data of size 1e2..1e6
+    out += [dict(i=len(PINNED) + N[tier] + j, seed=seed, noref=True) for j in range(NNOREF[tier])]
     return out
 
 
@@ -45,7 +51,7 @@ def setup():
     engine.install_log_tap()
 
 
-def make_cfg(seed, i):
+def make_cfg(seed, i, bigdata=False):
     rng = engine.rng_for(seed, NUM, i)
     r = rng.random
     n = int(rng.integers(1, 6))
@@ -96,6 +102,14 @@ def make_cfg(seed, i):
     else:
         cfg["lower"] = cfg["upper"] = None
     cfg["x0"] = x0.tolist()
+    if (bigdata and lo is None) or (i % 11 == 7 and fam in ("l1u", "l2u")):
+        # data of size 1e2..1e6 with lambda a fixed fraction of the value that makes x = 0 optimal ("lambda over several decades"
+        # is then several decades of very large numbers): criticality measures and step sizes span the floating-point range
+        cfg["bscale"] = float(10.0 ** rng.uniform(2, 6))
+        A_, b_ = gen.linear_data(n, m, cfg["pseed"], cfg["cond"], cfg["scale"], cfg["bscale"])
+        lam_max = 2.0 * float(np.max(np.abs(A_.T @ b_))) if cfg["reg"] == "l1" else 2.0 * float(np.linalg.norm(A_.T @ b_))
+        cfg["lam"] = float(10.0 ** rng.uniform(-3, -0.3)) * lam_max
+        cfg["family_variant"] = "bigdata"
     cfg["args_mode"] = gen.pick(rng, ["none", "h", "prox", "both"], p=[0.4, 0.15, 0.15, 0.3])
     if r() < 0.15:
         # regularised runs with soft restarts that grow the point set (the only route into Model.add_new_point)
@@ -206,11 +220,15 @@ def classify(kind, cfg, gap, tol, flag):
 def run_case(case):
     res = dict(stats={}, viol=[], nontrivial=[], inconclusive=[])
     st = res["stats"]
-    cfg0 = case.get("cfg") or make_cfg(case["seed"], case["i"])
+    cfg0 = case.get("cfg") or make_cfg(case["seed"], case["i"], bigdata=bool(case.get("noref")))
     case["cfg"] = cfg0
     A, b, x0, lam, lo, hi, cfg = build_instance(cfg0)
     n = cfg["n"]
-    Fstar, xstar, cert = reference(A, b, lam, cfg["reg"], lo, hi, cfg["pseed"])
+    if case.get("noref"):
+        Fstar, xstar, cert = None, None, False
+        st["cases_without_reference"] = 1
+    else:
+        Fstar, xstar, cert = reference(A, b, lam, cfg["reg"], lo, hi, cfg["pseed"])
     SH, SP = Sentinel("argsh"), Sentinel("argsprox")
     mode = cfg.get("args_mode", "none")
     argsh = (SH, 2.5) if mode in ("h", "both") else ()
@@ -303,7 +321,8 @@ def run_case(case):
     bv, _ = oracles.box_violations(run, lo, hi, limit=1)
     res["viol"].extend(bv)
     if not cert:
-        st["reference_uncertified"] = 1
+        if not case.get("noref"):
+            st["reference_uncertified"] = 1
         return res
     st["oracle_evaluations"] = 1
     gap = float(s.obj - Fstar)
@@ -345,8 +364,9 @@ def run_case(case):
 def finalize(agg):
     st = agg["stats"]
     reasons = []
-    if st.get("oracle_evaluations", 0) < 0.8 * agg["ncases"]:
-        reasons.append("certified reference available for only %d of %d cases" % (st.get("oracle_evaluations", 0), agg["ncases"]))
+    nref = agg["ncases"] - int(st.get("cases_without_reference", 0))
+    if st.get("oracle_evaluations", 0) < 0.8 * nref:
+        reasons.append("certified reference available for only %d of %d cases" % (st.get("oracle_evaluations", 0), nref))
     if st.get("prox_calls", 0) == 0 or st.get("h_calls", 0) == 0:
         reasons.append("pass-through recorder saw no call")
     for k in ("argsmode|both", "argsmode|prox", "argsmode|h"):
